@@ -8,15 +8,15 @@ import (
 // Thread is an interpreted goroutine running on its own host goroutine; exactly
 // one thread holds the baton at any time.
 type Thread struct {
-	id       int
-	wake     chan struct{}
-	done     bool
-	blocked  func() bool // non-nil while blocked: enabled again when it returns true
-	blockOn  string
-	daemon   bool
-	started  bool
-	fn       Value
-	args     []Value
+	id      int
+	wake    chan struct{}
+	done    bool
+	blocked func() bool // non-nil while blocked: enabled again when it returns true
+	blockOn string
+	daemon  bool
+	started bool
+	fn      Value
+	args    []Value
 }
 
 func (in *Interp) newThread(fn Value, args []Value) *Thread {
